@@ -77,6 +77,14 @@ C08Cases ==
         mn \in BOOLEAN, rd \in {"all", "some"}, ms \in {0, 1, 2, 3}, bf \in BOOLEAN, w \in {0, 1, 2},
         \* one more mint block spanning two policies, with a redeemer; optionally a burn that cancels its lower / higher policy
         mu \in {"none", "two", "cancel_low", "cancel_high"}}
+    \* withdrawals of which only some are guarded (StakeTwo's account sorts before StakeOne's): the pointer of a reward
+    \* redeemer counts every reward account of the body, guarded or not
+    \cup {[kind |-> "c08", refs |-> rs, many |-> FALSE, reds |-> "some", mints |-> ms, burnFirst |-> FALSE, wds |-> 2, multi |-> "none",
+            wdReds |-> wr] :
+           rs \in {s \in [1..NInputs -> RefPool] : s[1] = [txid |-> Tx1, index |-> 0] /\ (NInputs >= 2 => s[2] = [txid |-> Tx2, index |-> 1])
+                                                   /\ (NInputs >= 3 => s[3] = [txid |-> Tx3, index |-> 10])},
+           ms \in {0, 1}, wr \in {"first", "second", "none"}}
+WdGuard(x) == IF "wdReds" \in DOMAIN x THEN x.wdReds ELSE "all"
 C08Prog(x) ==
     LET k == NInputs
         \* a `many` first block gets a second UTxO
@@ -94,8 +102,10 @@ C08Prog(x) ==
                              !.outputs = <<Out("", FALSE, Receiver, AdaE(Lit(2000000)), Absent)>>,
                              !.mints = (IF x.burnFirst /\ x.mints >= 1 THEN SubSeq(mintBlocks, 2, x.mints) ELSE mintBlocks) \o twoBlock,
                              !.burns = (IF x.burnFirst /\ x.mints >= 1 THEN <<mintBlocks[1]>> ELSE <<>>) \o cancel,
-                             !.withdrawals = SubSeq(<<[from |-> Id("party", "StakeOne", "stakeone"), amount |-> Lit(5), redeemer |-> RedOf(20)],
-                                                      [from |-> Id("party", "StakeTwo", "staketwo"), amount |-> Lit(6), redeemer |-> RedOf(21)]>>, 1, x.wds)]
+                             !.withdrawals = SubSeq(<<[from |-> Id("party", "StakeOne", "stakeone"), amount |-> Lit(5),
+                                                       redeemer |-> IF WdGuard(x) \in {"all", "first"} THEN RedOf(20) ELSE Absent],
+                                                      [from |-> Id("party", "StakeTwo", "staketwo"), amount |-> Lit(6),
+                                                       redeemer |-> IF WdGuard(x) \in {"all", "second"} THEN RedOf(21) ELSE Absent]>>, 1, x.wds)]
         base == EnvOf(1)
     IN  [prog |-> [decls |-> [Decls EXCEPT !.parties = @ \o <<[name |-> "StakeOne", key |-> "stakeone"], [name |-> "StakeTwo", key |-> "staketwo"]>>], tx |-> tx],
          env |-> [base EXCEPT !.args = [n |-> base.args.n, mixed |-> base.args.mixed, b |-> base.args.b, e_int |-> base.args.e_int,
